@@ -88,3 +88,22 @@ M("c13-subscribe-raw-variables", "C13", "C13.R5", A, 'payload["payload"]["variab
 M("c13-subscribe-opname-key", "C13", "C13.R5", AO, '"payload": {"query": query, "operationName": operation_name},', '"payload": {"query": query, "operation_name": operation_name},')
 M("c13-otel-twin", "C13", "C11.R2", AO, "                    if data:\n                        yield data", "                    if data is not None:\n                        yield data")
 M("c13-benign-rename", "C13", None, A, "message_dict", "frame", count=0)
+
+# ----------------------------------------------------------------------- C10
+CG = "client_generators/"
+M("c10-deps-unsorted", "C10", "C10.R1", CG + "fragments.py", "for dep in sorted(dependencies_dict[name]):", "for dep in dependencies_dict[name]:")
+M("c10-roots-unsorted", "C10", "C10.R1", CG + "fragments.py", "for name in sorted(fragments_names):", "for name in fragments_names:")
+M("c10-files-unsorted", "C10", "C10.R1", "schema.py", "for f in sorted(walk_graphql_files(path))", "for f in walk_graphql_files(path)")
+M("c10-related-fragments-unsorted", "C10", "C10.R1", CG + "result_types.py", "for used_fragment in sorted(self._get_all_related_fragments()):", "for used_fragment in self._get_all_related_fragments():")
+M("c10-bases-unsorted", "C10", "C10.R1", CG + "result_types.py", "[str_to_pascal_case(f) for f in sorted(fragments)]", "[str_to_pascal_case(f) for f in fragments]")
+M("c10-typename-unsorted", "C10", "C10.R1", CG + "result_fields.py", "for v in sorted(typename_values)]", "for v in typename_values]")
+M("c10-rebuild-unsorted", "C10", "C10.R1", CG + "fragments.py", "        sorted_fragments_names = sorted(\n            top_level_fragments_names, key=class_names.index\n        )", "        sorted_fragments_names = top_level_fragments_names")
+M("c10-interface-fragment-types-unsorted", "C10", "C10.R1", CG + "result_fields.py", "        fragments_types_names = sorted(\n            {", "        fragments_types_names = list(\n            {")
+M("c10-type-collector-unsorted", "C10", "C10.R1", CG + "custom_generator_utils.py", "return sorted(self.collected_types)", "return list(self.collected_types)")
+M("c10-custom-fields-typing-unsorted", "C10", "C10.R1", CG + "custom_fields.py", "sorted(additional_fields_typing)", "list(additional_fields_typing)")
+M("c10-stable-comment-time", "C10", "C10.R2", CG + "comments.py", "    comment = STABLE_COMMENT\n", "    comment = STABLE_COMMENT + datetime.now().strftime(\"%Y\")\n")
+M("c10-timestamp-default", "C10", "C10.R2", CG + "comments.py", "    }.get(strategy, empty_comment_function)", "    }.get(strategy, get_timestamp_comment)")
+M("c10-skip-existing-init", "C10", "C10.R3", CG + "package.py", "        init_module = self.init_generator.generate()\n", "        if init_file_path.exists():\n            return\n        init_module = self.init_generator.generate()\n")
+M("c10-append-client", "C10", "C10.R3", CG + "package.py", "        client_file_path.write_text(code)", "        with client_file_path.open(\"a\") as fh:\n            fh.write(code)")
+M("c10-hash-in-name", "C10", "C10.R2", CG + "package.py", '        file_name = f"{module_name}.py"', '        file_name = f"{module_name}.py" if hash(module_name) else f"{module_name}.py"')
+M("c10-benign-sorted-twice", "C10", None, CG + "fragments.py", "for name in sorted(fragments_names):", "for name in sorted(sorted(fragments_names)):")
